@@ -94,4 +94,22 @@ where
     | [] => true
     | t :: ts => layoutOk t && layoutOkList ts
 
+/-- Every `Compact<_>` node has one of the five widths the crate implements. -/
+def widthsOk : Ty → Bool
+  | .compact w => widthOk w
+  | .option t => widthsOk t
+  | .result t e => widthsOk t && widthsOk e
+  | .tuple ts => widthsOkList ts
+  | .array _ t => widthsOk t
+  | .garray _ t => widthsOk t
+  | .seq _ _ t => widthsOk t
+  | .box _ t => widthsOk t
+  | .range t => widthsOk t
+  | .enum _ ts => widthsOkList ts
+  | _ => true
+where
+  widthsOkList : List Ty → Bool
+    | [] => true
+    | t :: ts => widthsOk t && widthsOkList ts
+
 end Scale
